@@ -273,3 +273,31 @@ def run(repo: Repo, chk: Check, thorough: bool = False) -> None:
                             next(k.value for k in c.keywords if k.arg == 'href').id in urlvars for c in href)
     chk.ob('R11.5', 'pydoctor.linker.taglink :: href is the (shortened) object url', ok, 'href=url with url = o.url' if ok else
            'href is not built from Documentable.url', tl.loc)
+    # the page context under which an annotation link is shortened is the annotated object itself (the link is emitted on ITS page),
+    # not its parent / module: `#name` would otherwise be emitted on a page that has no such anchor
+    al = repo.cls('pydoctor.linker._AnnotationLinker')
+    ini = al.methods.get('__init__')
+    if ini is None:
+        raise AnalysisError('R11.5: _AnnotationLinker.__init__ missing')
+    ip = [p.arg for p in ini.params()]
+    own = {t.attr for n in ini.walk() if isinstance(n, ast.Assign) and isinstance(n.value, ast.Name) and len(ip) > 1 and n.value.id == ip[1]
+           for t in n.targets if isinstance(t, ast.Attribute) and dotted(t.value) == 'self'}
+    for pn, pf in al.methods.items():   # properties returning the same attribute
+        rs = [n for n in pf.walk() if isinstance(n, ast.Return) and isinstance(n.value, ast.Attribute) and dotted(n.value.value) == 'self' and n.value.attr in own]
+        if rs and len(pf.body()) == 1:
+            own = own | {pn}
+    n_sw = 0
+    for mn in ('link_to', 'link_xref'):
+        mf = al.methods.get(mn)
+        if mf is None:
+            raise AnalysisError(f'R11.5: _AnnotationLinker.{mn} missing')
+        for c in calls_in(mf, lambda c: call_name(c) == 'switch_context'):
+            n_sw += 1
+            a0 = c.args[0] if c.args else None
+            ok = isinstance(a0, ast.Attribute) and dotted(a0.value) == 'self' and a0.attr in own
+            chk.ob('R11.5', f'{al.qn}.{mn} :: links are shortened relative to the page of the annotated object', ok,
+                   f'switch_context({norm(a0) if a0 is not None else ""})' if ok else
+                   f'`{norm(c)}`: the context is not the object the annotation belongs to; for a class (own page) the parent lives on another page, so a '
+                   'module-level name in a base / annotation is emitted as `#name` on a page without that anchor', repo.loc(mf.mod, c))
+    if n_sw < 2:
+        raise AnalysisError(f'R11.5: {n_sw} switch_context call(s) in _AnnotationLinker.link_to/link_xref (2 confirmed)')
